@@ -419,11 +419,11 @@ fn main() {
         ];
         if !q {
             v.push((Spec::SumVec { max: 2, len: 2, chunk: 3 }, c(83521, 289, 1, 1)));
-            v.push((Spec::Multihot { len: 2, max_weight: 2, chunk: 3 }, c(83521, 289, 1, 36)));
+            v.push((Spec::Multihot { len: 2, max_weight: 2, chunk: 3 }, c(83521, 289, 1, 4)));
             v.push((Spec::L1 { max: 1, len: 2, chunk: 2 }, c(4913, 289, 1, 36)));
-            v.push((Spec::L1 { max: 2, len: 1, chunk: 3 }, c(83521, 289, 1, 36)));
+            v.push((Spec::L1 { max: 2, len: 1, chunk: 3 }, c(83521, 289, 1, 4)));
             v.push((Spec::Sum { max: 5 }, c(4913, 1, 3, 216)));
-            v.push((Spec::Histogram { len: 4, chunk: 3 }, c(83521, 289, 1, 16)));
+            v.push((Spec::Histogram { len: 4, chunk: 3 }, c(83521, 289, 1, 4)));
         }
         v
     };
